@@ -5,7 +5,9 @@
 From Coq Require Import ZArith List Bool String Ascii Arith Sorted Permutation.
 From LV Require Import Base.Prelude Lex.LexerBase Gen.LexerSortKey Lex.Lexer
      Lex.LexerOrder_proofs Lex.Lexer_proofs Lex.Unless_proofs Lex.Contextual_proofs
-     Lex.LexerTop_proofs Lex.LexerExample_proofs.
+     Lex.LexerTop_proofs Lex.LexerExample_proofs
+     Cfg.Grammar LR.Driver Lex.FlagsBase Gen.LexerHoles Lex.Holes_proofs Lex.Alt Lex.Alt_proofs
+     Lex.ContextualLR Lex.ContextualLR_proofs.
 Import ListNotations.
 
 (* The key tuple of BasicLexer.__init__ (as regenerated) is the documented order - higher
@@ -62,41 +64,41 @@ Print Assumptions C07_chunks_concat.
 (* The keyword rule: the reported type is the chosen terminal's name, unless that terminal is
    a regexp and some same-priority string terminal, whose text the regexp matches in full,
    equals the token's value (case-folded iff flag i): then it is the first such string. *)
-Theorem C07_unless_keyword m L X v :
-  (tre X = false -> report m L X v = tname X) /\
-  ((forall K, keyword_of m L X K -> str_full K v = false) -> report m L X v = tname X) /\
+Theorem C07_unless_keyword fold m L X v :
+  (tre X = false -> report fold m L X v = tname X) /\
+  ((forall K, keyword_of m L X K -> str_full fold K v = false) -> report fold m L X v = tname X) /\
   (forall pre K post, tre X = true -> L = pre ++ K :: post -> keyword_of m L X K ->
-     str_full K v = true ->
-     (forall K', In K' pre -> keyword_of m L X K' -> str_full K' v = false) ->
-     report m L X v = tname K) /\
-  (report m L X v <> tname X ->
-     exists K, report m L X v = tname K /\ tre X = true /\ keyword_of m L X K /\ str_full K v = true) /\
-  (forall K, str_full K v = true <->
-     if ci_of K then lower_str (tvalue K) = lower_str v else tvalue K = v).
-Proof. exact (unless_keyword m L X v). Qed.
+     str_full fold K v = true ->
+     (forall K', In K' pre -> keyword_of m L X K' -> str_full fold K' v = false) ->
+     report fold m L X v = tname K) /\
+  (report fold m L X v <> tname X ->
+     exists K, report fold m L X v = tname K /\ tre X = true /\ keyword_of m L X K /\ str_full fold K v = true) /\
+  (forall K, str_full fold K v = true <->
+     if ci_of K then fold_str fold (tvalue K) = fold_str fold v else tvalue K = v).
+Proof. exact (unless_keyword fold m L X v). Qed.
 Print Assumptions C07_unless_keyword.
 
 (* Removing the embedded string terminals from the scanner changes no token, when embedding is
    semantic, regexps do not overlap and keywords are isolated among same-priority strings. *)
-Theorem C07_unless_removal m text st ign mresA mresB fuel p rsA eA rsB eB :
+Theorem C07_unless_removal fold m text st ign mresA mresB fuel p rsA eA rsB eB :
   uniq_names st -> StronglySorted doc_le st ->
-  str_oracle m text st -> bounded_oracle m text st -> embedding_semantic m text st ->
+  str_oracle fold m text st -> bounded_oracle m text st -> embedding_semantic m text st ->
   regexps_disjoint m text st -> keywords_isolated m text st st -> ignore_agrees m st ign ->
   List.concat mresA = st -> List.concat mresB = scanner_terms m st ->
   lex_raw m text fuel mresA p = (rsA, eA) ->
   lex_raw m text fuel mresB p = (rsB, eB) ->
-  emit m text st ign rsB = emit m text st ign rsA /\ eB = eA.
+  emit fold m text st ign rsB = emit fold m text st ign rsA /\ eB = eA.
 Proof.
   exact (fun H1 H2 H3 H4 H5 H6 H7 H8 =>
-           removal_lex m text st ign H1 H2 H3 H4 H5 H6 H7 H8 mresA mresB fuel p rsA eA rsB eB).
+           removal_lex fold m text st ign H1 H2 H3 H4 H5 H6 H7 H8 mresA mresB fuel p rsA eA rsB eB).
 Qed.
 Print Assumptions C07_unless_removal.
 
 (* ... and without isolation it does change one (finding F14) *)
 Theorem C07_unless_removal_unconditional_refuted :
   let st := sort_terms f14_terms in
-  obs_at f14_m "if" st st [] 0 = Some ("A"%string, 2, false) /\
-  obs_at f14_m "if" st (scanner_terms f14_m st) [] 0 = Some ("B"%string, 2, false).
+  obs_at lower f14_m "if" st st [] 0 = Some ("A"%string, 2, false) /\
+  obs_at lower f14_m "if" st (scanner_terms f14_m st) [] 0 = Some ("B"%string, 2, false).
 Proof. exact removal_without_isolation_refuted. Qed.
 Print Assumptions C07_unless_removal_unconditional_refuted.
 
@@ -105,11 +107,11 @@ Print Assumptions C07_unless_removal_unconditional_refuted.
    the contextual lexer yields the same tokens - under non-overlapping regexps, semantic
    embedding, and, in every state, keywords isolated among the state's same-priority strings
    (this excludes finding F15: a string terminal that extends a keyword). *)
-Theorem C07_contextual_refines_basic m cok text (pstate : Type) accepts step terms ign always
+Theorem C07_contextual_refines_basic fold m cok text (pstate : Type) accepts step terms ign always
         root ts (sf s0 : pstate) :
   (forall l, cok l = true) ->
   uniq_names terms ->
-  str_oracle m text (sort_terms terms) ->
+  str_oracle fold m text (sort_terms terms) ->
   bounded_oracle m text (sort_terms terms) ->
   (forall t p n, In t (sort_terms terms) -> m t text p = Some n -> (0 < n)%nat) ->
   embedding_semantic m text (sort_terms terms) ->
@@ -117,15 +119,15 @@ Theorem C07_contextual_refines_basic m cok text (pstate : Type) accepts step ter
   ignore_agrees m (sort_terms terms) ign ->
   (forall s, keywords_isolated m text (sort_terms terms)
                (sort_terms (sub_terms pstate accepts terms ign always s))) ->
-  (forall s a s', step s a = Some s' -> In a (accepts s)) ->
+  (forall s t s', step s t = Some s' -> In (ktype t) (accepts s)) ->
   make_lexer m cok terms ign = Some root ->
-  lex_from m text root 0 = (ts, AtEOF) ->
-  run pstate step s0 (map ktype ts) = Some sf ->
+  lex_from fold m text root 0 = (ts, AtEOF) ->
+  run pstate step s0 ts = Some sf ->
   forall fuel, (List.length ts < fuel)%nat ->
-  ctx_lex m cok text pstate accepts step fuel terms ign always root s0 0 = (ts, CEOF).
+  ctx_lex fold m cok text pstate accepts step fuel terms ign always root s0 0 = (ts, CEOF).
 Proof.
   exact (fun Hc Hu Hs Hb Hp He Hd Hi Hk Ha =>
-           contextual_refines_basic m cok text Hc pstate accepts step terms ign always
+           contextual_refines_basic fold m cok text Hc pstate accepts step terms ign always
                                     Hu Hs Hb Hp He Hd Hi Hk Ha root ts sf s0).
 Qed.
 Print Assumptions C07_contextual_refines_basic.
@@ -133,10 +135,10 @@ Print Assumptions C07_contextual_refines_basic.
 Theorem C07_contextual_without_isolation_refuted :
   exists root ts,
     make_lexer f15_m ex_cok f15_terms [] = Some root /\
-    lex_from f15_m f15_text root 0 = (ts, AtEOF) /\
-    run nat f15_step 0 (map ktype ts) = Some 4 /\
+    lex_from lower f15_m f15_text root 0 = (ts, AtEOF) /\
+    run nat f15_step 0 ts = Some 4 /\
     map ktype ts = ["IF"; "LP"; "NAME"; "RP"]%string /\
-    map ktype (fst (ctx_lex f15_m ex_cok f15_text nat f15_accepts f15_step 6 f15_terms [] [] root 0 0))
+    map ktype (fst (ctx_lex lower f15_m ex_cok f15_text nat f15_accepts f15_step 6 f15_terms [] [] root 0 0))
       = ["IFP"%string].
 Proof. exact contextual_without_isolation_refuted. Qed.
 Print Assumptions C07_contextual_without_isolation_refuted.
@@ -146,14 +148,185 @@ Print Assumptions C07_contextual_without_isolation_refuted.
    disjoint regexps, isolation, ignore agreement, parser discipline); the first parser state
    accepts IF but not NAME, so the keyword has to win in the sub-lexer by itself. *)
 Example C07_example :
-  uniq_names ex_terms /\ str_oracle ex_m ex_text ex_st /\ bounded_oracle ex_m ex_text ex_st /\
+  uniq_names ex_terms /\ str_oracle lower ex_m ex_text ex_st /\ bounded_oracle ex_m ex_text ex_st /\
   embedding_semantic ex_m ex_text ex_st /\ regexps_disjoint ex_m ex_text ex_st /\
   keywords_isolated ex_m ex_text ex_st ex_st /\ ignore_agrees ex_m ex_st ex_ign /\
-  lex_from ex_m ex_text ex_root 0 = ([mkTok "IF" 0 2; mkTok "NAME" 3 1], AtEOF) /\
-  ctx_lex ex_m ex_cok ex_text nat ex_accepts ex_step 3 ex_terms ex_ign [] ex_root 0 0
+  lex_from lower ex_m ex_text ex_root 0 = ([mkTok "IF" 0 2; mkTok "NAME" 3 1], AtEOF) /\
+  ctx_lex lower ex_m ex_cok ex_text nat ex_accepts ex_step 3 ex_terms ex_ign [] ex_root 0 0
     = ([mkTok "IF" 0 2; mkTok "NAME" 3 1], CEOF).
 Proof.
   exact (conj ex_uniq (conj ex_str (conj ex_bound (conj ex_sem (conj ex_disj (conj ex_iso_st
         (conj ex_ign_agrees (conj ex_basic ex_contextual_by_theorem)))))))).
 Qed.
 Print Assumptions C07_example.
+
+(* ------------------------------------------------------------------------------------ round 12 *)
+
+(* The Scanner OBJECT (Scanner.__init__ / _build_mres / match) over opaque compiled alternations:
+   amatch c text p = (lastgroup, len(group(0))) of the alternation compiled from chunk c.  Under the
+   single assumption "an alternation of named groups reports the first alternative, in order, that
+   matches by itself, with that alternative's own match" (alt_first_assumption; validated against
+   Python's re on every run), whatever the chunking: the reported name is that of the first
+   terminal, in the documented order, of the scanner's terminals that match at p; and the scanner
+   fails exactly where none of them matches. *)
+Theorem C07_scanner_first_alt m amatch cok terms ign L text p :
+  alt_first_assumption m amatch -> cok_monotone cok -> make_lexer m cok terms ign = Some L ->
+  (forall nm n, sc_match amatch (lx_mres L) text p = Some (nm, n) ->
+     exists t, tname t = nm /\
+       In t (scanner_terms m (sort_terms terms)) /\ m t text p = Some n /\
+       forall u, In u (scanner_terms m (sort_terms terms)) -> m u text p <> None -> doc_le t u) /\
+  (sc_match amatch (lx_mres L) text p = None <->
+     forall u, In u (scanner_terms m (sort_terms terms)) -> m u text p = None) /\
+  sc_match amatch (lx_mres L) text p = named (scan m text (lx_mres L) p).
+Proof.
+  exact (fun Ha Hm HL =>
+           conj (fun nm n => scanner_object_first m amatch cok Ha terms ign L text p nm n Hm HL)
+                (conj (scanner_object_none m amatch cok Ha terms ign L text p Hm HL)
+                      (sc_match_scan m amatch Ha (lx_mres L) text p))).
+Qed.
+Print Assumptions C07_scanner_first_alt.
+
+(* UnlessCallback over its own Scanner object (Scanner(unless, ...).fullmatch): under the
+   assumption that fullmatch of an alternation of string patterns reports the first string equal
+   to the value, the callback re-types exactly as the model's report - or the callback's scanner
+   could not be compiled at all. *)
+Theorem C07_unless_callback_object fold m afull cok terms X v :
+  alt_full_assumption fold afull -> cok_monotone cok ->
+  match report_o m afull cok terms X v with
+  | Some r => r = report fold m terms X v
+  | None => scanner_mres cok (unless_of m terms X) = None
+  end.
+Proof. exact (fun Hf Hm => report_object fold m afull cok Hf terms X v Hm). Qed.
+Print Assumptions C07_unless_callback_object.
+
+(* Both assumptions are theorems about a backtracking engine (each pattern = the ordered list of
+   match lengths it tries): nothing follows the alternation in Scanner.match, so the first
+   candidate of the first alternative that has one wins; in Scanner.fullmatch the end anchor
+   follows, and for single-candidate alternatives (string terminals) the first string equal to
+   the value wins. *)
+Theorem C07_alt_assumption_backtracking fold cand :
+  alt_first_assumption (m_of cand) (fun c text p => named (alt_match_bt cand c text p)) /\
+  ((forall K v, tre K = false -> cand K v 0 = cand_str fold K v 0) ->
+   alt_full_assumption fold
+     (fun c v => option_map (fun x : term * nat => tname (fst x)) (alt_full_bt cand c v))).
+Proof. exact (alt_assumptions_backtracking fold cand). Qed.
+Print Assumptions C07_alt_assumption_backtracking.
+
+(* ... and "first alternative that matches by itself" is false as soon as something follows the
+   alternation: A: "a", B: "ab", value "ab" - A matches by itself at 0, fullmatch reports B. *)
+Theorem C07_alt_first_with_continuation_refuted :
+  let cand := cand_str lower in
+  first_some (fun t => m_of cand t "ab"%string 0) [altA; altB] = Some (altA, 1) /\
+  alt_full_bt cand [altA; altB] "ab"%string = Some (altB, 2).
+Proof. exact alt_first_with_continuation_refuted. Qed.
+Print Assumptions C07_alt_first_with_continuation_refuted.
+
+(* The conditions and sizes regenerated from lark/lexer.py (Gen/LexerHoles.v: _create_unless,
+   Scanner.__init__/_build_mres, PatternStr widths, the zero-width rejection, next_token,
+   ContextualLexer.__init__) are those of the model. *)
+Theorem C07_code_conditions :
+  (forall m R K, is_unless m R K =
+     negb (h_unless_skip (tprio K) (tprio R)) &&
+     match m R (tvalue K) 0 with Some n => Nat.eqb n (String.length (tvalue K)) | None => false end) /\
+  (forall m terms R, embedded_of m terms R =
+     filter (fun K => h_embed_flags (tflags K) (tflags R)) (unless_of m terms R)) /\
+  (forall cok ts, scanner_mres cok ts =
+     build_mres cok (S (S (List.length ts))) (Z.to_nat (h_init_size (Z.of_nat (List.length ts)))) ts) /\
+  (forall cok f k ts, build_mres cok (S f) k ts =
+     match build_loop cok (S (List.length ts)) (Z.to_nat (h_chunk_take (Z.of_nat k))) ts [] with
+     | LDone mres => Some mres
+     | LRetry rest => build_mres cok f (Z.to_nat (h_retry_size (Z.of_nat k))) rest
+     | LFuel => None
+     end) /\
+  (forall k, h_chunk_take k = k /\ h_chunk_drop k = k) /\
+  (forall K, h_str_max_width (tvlen K) = tvlen K /\ h_str_min_width (tvlen K) = tvlen K) /\
+  (forall w, h_zero_width w = true <-> w = 0%Z) /\
+  (forall m text fuel L p, next_token m text (S fuel) L p =
+     if negb (h_lx_more (Z.of_nat p) (Z.of_nat (String.length text))) then NEOF else
+     match scan m text (lx_mres L) p with
+     | None => NErr p
+     | Some (t, n) =>
+         let r := mkRaw t p n in
+         if h_emit (ignored (lx_ign L) r) then NTok r else next_token m text fuel L (p + n)
+     end) /\
+  (forall i cb, h_emit i = true -> h_make_token i cb = true) /\
+  (forall (pstate : Type) (accepts : pstate -> list string) terms ign always s,
+     sub_terms pstate accepts terms ign always s =
+     filter (fun t => h_sub_keep (mem_string (tname t) (accepts s)) (mem_string (tname t) ign)
+                                 (mem_string (tname t) always)) terms).
+Proof.
+  exact (conj hole_unless_prio (conj hole_embedded_of (conj hole_scanner_mres (conj hole_build_mres
+        (conj hole_chunk (conj hole_str_width (conj hole_zero_width (conj hole_next_token
+        (conj hole_make_token hole_sub_terms))))))))).
+Qed.
+Print Assumptions C07_code_conditions.
+
+(* Contextual refines basic ON THE MODEL PARSE TABLE: the parser is LR/Driver.v on a concrete table
+   R (rows keyed by terminal numbers = indices in conf.terminals); the accept set of a parser
+   state is the key set of its table row, one parser step is one feed_token.  If the basic lexer
+   tokenises the text and the driver returns a tree for those tokens, then the contextual lexer
+   - per-row sub-lexers over accepts + ignore + always_accept - yields the same tokens and the
+   interleaved lex/parse run returns the same tree. *)
+Theorem C07_contextual_refines_basic_instantiated fold m cok text terms ign always R q0 qe dfuel
+        root ts tree end_tok :
+  rows_known terms R = true ->
+  (forall l, cok l = true) ->
+  uniq_names terms ->
+  str_oracle fold m text (sort_terms terms) ->
+  bounded_oracle m text (sort_terms terms) ->
+  (forall t p n, In t (sort_terms terms) -> m t text p = Some n -> (0 < n)%nat) ->
+  embedding_semantic m text (sort_terms terms) ->
+  regexps_disjoint m text (sort_terms terms) ->
+  ignore_agrees m (sort_terms terms) ign ->
+  (forall c : config tok, keywords_isolated m text (sort_terms terms)
+               (sort_terms (sub_terms (config tok) (lr_accepts terms R) terms ign always c))) ->
+  make_lexer m cok terms ign = Some root ->
+  lex_from fold m text root 0 = (ts, AtEOF) ->
+  parse tok (ContextualLR.ttype terms) (ContextualLR.P R q0 qe) dfuel ts end_tok = Accepted tree ->
+  forall fuel, (List.length ts < fuel)%nat ->
+  ctx_lex fold m cok text (config tok) (lr_accepts terms R) (lr_step terms R q0 qe dfuel) fuel
+          terms ign always root (init_config (ContextualLR.P R q0 qe)) 0 = (ts, CEOF) /\
+  ctx_parse fold m cok text terms ign always R q0 qe dfuel fuel root end_tok = CxTree tree.
+Proof.
+  exact (fun Hk Hc Hu Hs Hb Hp He Hd Hi Hiso =>
+           contextual_refines_basic_lr fold m cok text terms ign always R q0 qe dfuel
+                                       Hk Hc Hu Hs Hb Hp He Hd Hi Hiso root ts tree end_tok).
+Qed.
+Print Assumptions C07_contextual_refines_basic_instantiated.
+
+(* ContextualLexer.__init__: lexers shared through lexer_by_tokens[frozenset(accepts)] - every
+   state gets exactly the lexer it would build from its own accept set (the lexer depends on the
+   accept SET only), and a lexer is built anew exactly for the first state of each accept set. *)
+Theorem C07_sublexers_shared m cok terms ign always states :
+  map (fun x => (fst (fst x), snd (fst x))) (build_lexers m cok terms ign always states []) =
+  map (fun qa : state * list string => (fst qa, lexer_for m cok terms ign always (snd qa))) states /\
+  (forall a b, set_eqb a b = true ->
+     lexer_for m cok terms ign always a = lexer_for m cok terms ign always b) /\
+  (forall (pstate : Type) (accepts : pstate -> list string) s,
+     sub_lexer m cok pstate accepts terms ign always s = lexer_for m cok terms ign always (accepts s)).
+Proof.
+  exact (conj (build_lexers_spec m cok terms ign always states [] (fun k L H => match H with end))
+              (conj (lexer_for_set m cok terms ign always)
+                    (sub_lexer_is_lexer_for m cok terms ign always))).
+Qed.
+Print Assumptions C07_sublexers_shared.
+
+(* Non-vacuity of the round-12 statements: start: IF NAME on "if x" with lark's table; the
+   instantiated theorem applies (same tokens, same tree); the three rows accept different
+   terminals; the Scanner object answered by a backtracking engine picks NAME at 0 and its unless
+   callback re-types "if" to IF. *)
+Example C07_example_instantiated :
+  rows_known ex_terms ex_rows = true /\
+  parse tok (ContextualLR.ttype ex_terms) (ContextualLR.P ex_rows 0 3) 5
+        [mkTok "IF" 0 2; mkTok "NAME" 3 1] ex_end = Accepted ex_tree /\
+  ctx_parse lower ex_m ex_cok ex_text ex_terms ex_ign [] ex_rows 0 3 5 3 ex_root ex_end = CxTree ex_tree /\
+  (row_accepts ex_terms ex_rows 0 = ["IF"%string] /\ row_accepts ex_terms ex_rows 1 = ["NAME"%string] /\
+   row_accepts ex_terms ex_rows 2 = ["$END"%string]) /\
+  (sc_match (fun c txt p => named (alt_match_bt ex_cand c txt p)) (lx_mres ex_root) ex_text 0 = Some ("NAME"%string, 2) /\
+   report_o ex_m (fun c v => option_map (fun x : term * nat => tname (fst x)) (alt_full_bt ex_cand c v)) ex_cok
+            ex_st NAME "if" = Some "IF"%string).
+Proof.
+  exact (conj ex_rows_known (conj ex_lr_parse (conj (proj2 ex_contextual_lr_by_theorem)
+        (conj ex_lr_rows_differ ex_scanner_object)))).
+Qed.
+Print Assumptions C07_example_instantiated.
